@@ -1,0 +1,5 @@
+//go:build !verif
+
+package parser
+
+func verifPoint(string) {}
